@@ -39,6 +39,8 @@ pub struct Case {
     pub plugins: Vec<&'static str>,
     /// what the scalars plugin is told about a scalar of a JavaScript schema
     pub scalar_ext: Option<(String, serde_yaml::Value)>,
+    /// how the plugin hears of it: 0 one module; 1 a second module without scalars follows; 2 one precedes; 3 the module is reported twice
+    pub plugin_calls: usize,
     pub tags: Vec<String>,
 }
 
@@ -70,6 +72,7 @@ pub fn gen_case(c: &mut Chooser) -> Case {
     }
     // the base schema's `scalar Version`
     let mut scalar_ext: Option<(String, serde_yaml::Value)> = None;
+    let mut plugin_calls = 0;
     match c.choose("scalar.Version", 6) {
         5 => {
             // through the graphql-scalars plugin: the scalar's JavaScript definition carries `codegenScalarType`
@@ -83,6 +86,7 @@ pub fn gen_case(c: &mut Chooser) -> Case {
             scalar_ext = Some(("Version".to_string(), serde_yaml::from_str(y).unwrap()));
             scalars.insert("Version".into(), [t[0].to_string(), t[1].to_string(), t[2].to_string(), t[3].to_string()]);
             tags.push("scalar-by-plugin".into());
+            plugin_calls = c.choose("scalar.plugin-calls", 4);
         }
         0 => {
             cfg.generate.r#type.scalar_types.insert("Version".into(), ScalarTypeConfig::Single("string".into()));
@@ -263,7 +267,7 @@ pub fn gen_case(c: &mut Chooser) -> Case {
         plugins.insert(0, "nitrogql:graphql-scalars-plugin");
     }
     let subject_cfg = pipeline::via_config_text(&cfg);
-    Case { model, files, scalars, cfg, subject_cfg, plugins, scalar_ext, tags }
+    Case { model, files, scalars, cfg, subject_cfg, plugins, scalar_ext, plugin_calls, tags }
 }
 
 fn add_field(files: &mut [TsDoc], ty: &str, name: &str, t: Ty) {
@@ -329,7 +333,12 @@ fn check_case_inner(rep: &Reporter, case: &Case, texts: &[String], c: &Chooser, 
             .plugins
             .iter()
             .map(|n| match (*n, &case.scalar_ext) {
-                ("nitrogql:graphql-scalars-plugin", Some(e)) => pipeline::scalars_plugin_with(std::slice::from_ref(e)),
+                ("nitrogql:graphql-scalars-plugin", Some(e)) => pipeline::scalars_plugin_with_calls(&match case.plugin_calls {
+                    0 => vec![vec![e.clone()]],
+                    1 => vec![vec![e.clone()], vec![]],
+                    2 => vec![vec![], vec![e.clone()]],
+                    _ => vec![vec![e.clone()], vec![e.clone()]],
+                }),
                 _ => pipeline::make_plugins(&[n]).pop().unwrap(),
             })
             .collect();
@@ -549,7 +558,7 @@ pub fn run(args: &RunArgs) -> i32 {
     let stats = explore(&ExploreCfg { max_dev: dev, threads: args.threads, budget: Duration::from_secs(budget) }, |c: &mut Chooser| {
         let case = gen_case(c);
         let texts: Vec<String> = case.files.iter().map(ts_text).collect();
-        let key = format!("{}|{:?}|{}|{}|{}|{:?}", texts.join("\u{1}"), case.scalars, case.cfg.generate.r#type.allow_undefined_as_optional_input, case.cfg.generate.emit_schema_runtime, case.model.is_some(), (&case.plugins, &case.scalar_ext));
+        let key = format!("{}|{:?}|{}|{}|{}|{:?}", texts.join("\u{1}"), case.scalars, case.cfg.generate.r#type.allow_undefined_as_optional_input, case.cfg.generate.emit_schema_runtime, case.model.is_some(), (&case.plugins, &case.scalar_ext, case.plugin_calls));
         if !distinct.insert(fnv(key.as_bytes())) {
             return;
         }
